@@ -512,3 +512,30 @@ func TestVerifC08(t *testing.T) {
 		return c08Run(cs)
 	})
 }
+
+// TestVerifC08K: the production cacheKey for EVERY query type 0..65535 (one name): the part of the key after the
+// canonical name, exactly as produced.  The driver compares the whole table with the model's rendering in Coq.
+func TestVerifC08K(t *testing.T) {
+	dnsCacheJanitorInterval = 1000 * time.Hour
+	verifEachLine(t, func(line []byte) any {
+		ctl, err := NewDnsController(nil, c08Option(c08Cfg{}))
+		if err != nil {
+			return map[string]any{"err": err.Error()}
+		}
+		defer func() { _ = ctl.Close() }()
+		const name = "K.Example."
+		canon := "k.example."
+		out := make([]string, 0, 65536)
+		bad := ""
+		for q := 0; q < 65536; q++ {
+			k := ctl.cacheKey(name, uint16(q))
+			if len(k) < len(canon) || k[:len(canon)] != canon {
+				bad = fmt.Sprintf("qtype %d: key %q does not start with the canonical name", q, k)
+				out = append(out, "?")
+				continue
+			}
+			out = append(out, k[len(canon):])
+		}
+		return map[string]any{"suffix": out, "bad": bad}
+	})
+}
